@@ -2,6 +2,11 @@
 import json, sys
 pid, wt = sys.argv[1], sys.argv[2]
 n = int(sys.argv[3]) if len(sys.argv) > 3 else 3
+hint = ""
+if len(sys.argv) > 4 and sys.argv[4] == "deep":
+    hint = (" Prefer sites and mechanisms BEYOND the most obvious ones named in the property's anchors: helper functions several calls away, "
+            "rarely used branches, caches / memoisation / lazy properties, type-dispatch tables and factory mappings, interactions between two "
+            "features, behaviour after save + re-open, and states that only files written by other producers (or earlier edits) contain.")
 for l in open('/verif/properties.jsonl'):
     p = json.loads(l)
     if p['id'] == pid:
@@ -18,7 +23,7 @@ Your task: produce {n} DIFFERENT, independent source changes (mutations) to the 
   (c) still passes the existing pinned test suite. Run it from the worktree with:
         cd {wt} && PYTHONPATH={wt}/src /venv/bin/python -m pytest -q -p no:cacheprovider --timeout=900 --continue-on-collection-errors 2>&1 | tail -3
       The unmodified tree gives "566 passed, 46 errors" (the 46 collection errors are pre-existing and expected); your change must give the same 566 passed with no new failures.
-Make the changes REALISTIC (the kind of slip a maintainer could make in a refactor or an optimisation: an off-by-one, a dropped branch, a wrong comparison, a cache, a swapped argument, a condition that is right for common cases) and SUBTLE: each should need something specific to manifest (a particular multi-step sequence of operations, an unusual input, a boundary value, a particular pre-existing state, or two cooperating sites that each look fine alone), NOT something that ordinary use would expose at once.
+Make the changes REALISTIC (the kind of slip a maintainer could make in a refactor or an optimisation: an off-by-one, a dropped branch, a wrong comparison, a cache, a swapped argument, a condition that is right for common cases) and SUBTLE: each should need something specific to manifest (a particular multi-step sequence of operations, an unusual input, a boundary value, a particular pre-existing state, or two cooperating sites that each look fine alone), NOT something that ordinary use would expose at once.{hint}
 
 For each mutation i = 1..{n}:
   1. start from a clean tree (git -C {wt} checkout -- . ), make the change, save it with:  git -C {wt} diff > {wt}/mut{{i}}.diff
